@@ -349,6 +349,9 @@ class Repo:
                     r = self.resolve_name(k.module, v.id)
                     if r and r[0] == "func":
                         return r[1]
+                # a class attribute of that name shadows the base classes even
+                # when we cannot tell what it is (e.g. `_limit = staticmethod(min)`)
+                return None
         return None
 
     def defining_class(self, c: Class, name: str) -> Optional[Class]:
